@@ -40,8 +40,13 @@ ASSUMPTIONS = [
 
 def run(ctx: Ctx):
   m = model(ctx)
-  for r in (r1, r2, r3, r4, r5, r6, r8, r9, r10, r11, r12, r13):
+  for r in (r1, r2, r3, r4, r5, r6, r8, r9, r10, r11, r12, r13, r15):
     ctx.guard(r, m)
+  from mlmverif.props import c01
+  ctx.include('R-C11-14', '"merging gives the same result for every grouping and order ... neutral element": the NaN convention of an'
+              ' accumulator is the same in add and in merge (R-C01-17) — a statistic that skips NaN while accumulating and'
+              ' lets it through while merging (or the reverse) makes the result depend on where the shard boundaries fall',
+              c01.r17, m, min_instances=2)
   ctx.include('R-C11-7', '"a freshly created (empty) state is a neutral element'
               ' on either side": merge combines every accumulated statistic on'
               ' every path, driven by the configuration and not by what the'
@@ -777,12 +782,54 @@ def _is_emptiness(t: ast.AST, flags: set) -> bool:
   return False
 
 
+def r15(ctx: Ctx, m):
+  rule = 'R-C11-15'
+  ctx.rule(rule, '"merging gives the same result for every grouping and order": merge/add never combine numeric state with the'
+           ' BUILTIN min()/max() of two or more operands. The builtins compare with `<`, which is false for NaN on either'
+           ' side: min(nan, 1) is nan, min(1, nan) is 1 — the outcome depends on which shard is the receiver; they also'
+           ' raise for arrays. The numpy reductions the accumulators use (np.min/np.minimum/np.fmin and their max twins)'
+           ' are symmetric in their operands')
+  n = 0
+  for ci in m.accumulators:
+    for name in ('merge', 'add', 'merge_states'):
+      fi = ci.methods.get(name)
+      if fi is None:
+        continue
+      op = m.operand(fi) if name == 'merge' else None
+      n += 1
+      bad = None
+      for c in walk_no_nested(fi.node):
+        if isinstance(c, ast.Call) and isinstance(c.func, ast.Name) and c.func.id in ('min', 'max') and len(c.args) >= 2:
+          touches_state = any(is_self_attr(y) or (isinstance(y, ast.Name) and y.id == op) for a in c.args for y in ast.walk(a))
+          if touches_state:
+            bad = c
+            break
+      what = f'{ci.name}.{name}: no builtin min()/max() over accumulated state'
+      if bad is not None:
+        ctx.fail(rule, fi, what,
+                 f'`{unparse(bad)[:60]}` in {ci.name}.{name}: the builtin compares with `<`, so a NaN is kept or dropped depending'
+                 ' on its POSITION among the operands — a.merge(b) and b.merge(a) differ, and so do different groupings of'
+                 ' the same shards', node=bad)
+      else:
+        ctx.ok(rule, fi, what, fi.node)
+  ctx.floor(rule, 10, n)
+
+
 from mlmverif.selfcheck import B, OK  # noqa: E402
 
 _R = 'aggregates/rolling_stats.py'
 _U = 'aggregates/utils.py'
 _T = 'aggregates/retrieval.py'
 VARIANTS = [
+    B('scalar-minmax-merged-with-builtins', 'aggregates/rolling_stats.py',
+      "    self._min = np.min((self._min, other.min), axis=self.axis)\n    self._max = np.max((self._max, other.max), axis=self.axis)",
+      "    if self.axis is None:\n      self._min = min(self._min, other.min)\n      self._max = max(self._max, other.max)\n    else:\n      self._min = np.minimum(self._min, other.min)\n      self._max = np.maximum(self._max, other.max)", 'R-C11-15'),
+    OK('minmax-merged-over-a-stack', 'aggregates/rolling_stats.py',
+       "    self._min = np.min((self._min, other.min), axis=self.axis)\n    self._max = np.max((self._max, other.max), axis=self.axis)",
+       "    lo = np.stack((self._min, other.min))\n    hi = np.stack((self._max, other.max))\n    self._min = np.min(lo, axis=self.axis)\n    self._max = np.max(hi, axis=self.axis)"),
+    B('variance-merged-through-second-moments', 'aggregates/rolling_stats.py',
+      "    delta_mean = math_utils.nanadd(self._mean, -prev_mean)\n    mean_diff = math_utils.nanadd(other.mean, -self._mean)\n",
+      "    delta_mean = self._mean - prev_mean\n    mean_diff = other.mean - self._mean\n", 'R-C11-14'),
     B('tuple-state-grown-by-repeating-one-object', 'aggregates/utils.py',
       '      self.states = tuple(MeanState() for _ in other.states)', '      self.states = (MeanState(),) * len(other.states)', 'R-C11-13'),
     B('revert-merge-states-without-none-filter', 'aggregates/classification.py',
